@@ -6,6 +6,8 @@ from .. import gens, objs
 from ..harness import Sub, Violation
 from ..refs import gemini_ref as R
 
+THOROUGH_SCALE = 4  # thorough budgets below are multiplied by this (about ten minutes on 16 processes)
+
 RULE = ("metamorphic relations on generated (P, affinity): joint permutation of samples (rows of P, rows+columns of the "
         "affinity) and of clusters; appended empty cluster; closed-simplex inputs (one-hot rows, all-zero columns, "
         "sample-independent rows, balanced hard partitions). Non-trivial: non-identity permutation of both samples and "
